@@ -10,13 +10,18 @@
    was resolved before insertion (`C14_member_partial`), false when it was
    inserted unresolved, which is what both loaders do (`C14_member_refuted`,
    known finding F-C14-member-xmi, F-C14-member-json).
+   (4) the lookup of ResourceSet.can_resolve / resolve (Model/Href.v, compared with the real ResourceSet on
+   registries with aliases): the relative href that save writes for a target reaches the resource registered
+   under the target's normalised path WHATEVER aliases the registry also holds (C14_href_reaches_the_registered_target);
+   the lookup order before fix 6d0de70 (raw string first) is refuted on two referrers in different directories
+   using the same relative string (C14_same_relative_string_rawfirst_refuted).
    NOT proved (rests on the correspondence/oracle of harness/props/c14.py):
    that save() writes exactly relative_from_me, that the loader registers the
    loaded resource under the normalised path, order of mixed local/cross targets
    (lost by the XMI writer: known finding F-C14-order-xmi), delete() through a
    proxy, on-demand loading itself. *)
 From Coq Require Import ZArith List Bool.
-From PyecoreV Require Import Lib.PyBase Lib.PyDict Model.Paths Model.Proxy Proofs.PathsProofs Proofs.ProxyProofs.
+From PyecoreV Require Import Lib.PyBase Lib.PyDict Model.Paths Model.Proxy Model.Href Proofs.PathsProofs Proofs.ProxyProofs Proofs.HrefProofs.
 Import ListNotations.
 Open Scope Z_scope.
 
@@ -145,3 +150,29 @@ Example C14_paths_witness :
   render_norm (uri_relative_from_me a b) = [46;46;47;46;46;47;99;47;116] /\   (* "../../c/t" *)
   uri_normalize (uri_apply_relative_from_me a (uri_relative_from_me a b)) = b.
 Proof. vm_compute. split; reflexivity. Qed.
+
+(* ---------- which registered resource an href reaches ---------- *)
+Theorem C14_href_reaches_the_registered_target :
+  forall (r : registry) a b (id : Z),
+    pabs a = true -> pabs b = true -> plain_all (psegs a) -> plain_all (psegs b) ->
+    lookup (render_norm b) r = Some id ->
+    resolve_relfirst r a (uri_relative_from_me a b) = Some id.
+Proof. exact relfirst_reaches_the_registered_target. Qed.
+Print Assumptions C14_href_reaches_the_registered_target.
+
+Theorem C14_alias_is_only_a_fallback :
+  forall (r : registry) from href,
+    lookup (target_key from href) r = None ->
+    resolve_relfirst r from href = lookup (render href) r.
+Proof. exact relfirst_fallback. Qed.
+Print Assumptions C14_alias_is_only_a_fallback.
+
+Example C14_same_relative_string_from_two_directories :
+  uri_relative_from_me P_d1a P_d1b = uri_relative_from_me P_d2c P_d2b /\
+  resolve_relfirst REG P_d1a (uri_relative_from_me P_d1a P_d1b) = Some 2 /\
+  resolve_relfirst REG P_d2c (uri_relative_from_me P_d2c P_d2b) = Some 4.
+Proof. exact same_relative_string_relfirst. Qed.
+
+Example C14_same_relative_string_rawfirst_refuted :
+  resolve_rawfirst REG P_d2c (uri_relative_from_me P_d2c P_d2b) = Some 2.
+Proof. exact same_relative_string_rawfirst_refuted. Qed.
